@@ -31,7 +31,7 @@ ASSUMPTIONS = ["statistical assertions use 6-sigma bounds with library seeds dra
 def bn_histories(draw):
     rank = draw(st.sampled_from([2, 3, 4, 4, 5]))
     C = draw(st.integers(1, 3))
-    opts = {"C": C, "rank": rank, "momentum": draw(st.sampled_from([0.1, 0.5, 1.0, None, 0.01])),
+    opts = {"C": C, "rank": rank, "momentum": draw(st.sampled_from([0.1, 0.5, 1.0, None, 0.01, 0.0])),
             "affine": draw(st.booleans()), "track": draw(st.sampled_from([True, True, False])),
             "eps": draw(st.sampled_from([1e-5, 1e-3])), "dtype": draw(st.sampled_from(["float32", "float64"])),
             "defaults": draw(st.integers(0, 4)) == 0}
